@@ -12,7 +12,9 @@ SHIPPED = ["default", "python", "weighted", "python_bp"]
 MODELS = SHIPPED + ["weighted_asym", "weighted_asym2"]
 POOL = ["FunctionDef(f)", "FunctionDef(g)", "AsyncFunctionDef(f)", "ClassDef(A)", "Arguments", "Arg(x)", "If", "For", "AsyncFor",
         "While", "Return", "BinOp(+)", "UnaryOp", "Call", "Attribute(a)", "List", "Tuple", "Name(x)", "Name(y)", "Constant(1)",
-        "Constant(2)", "Assign", "Expr", "Decorator", "AnnAssign", "IfExp", "ListComp", "GeneratorExp", "Call(Field()"]
+        "Constant(2)", "Assign", "Expr", "Decorator", "AnnAssign", "IfExp", "ListComp", "GeneratorExp", "Call(Field()",
+        # labels that contain the separators a key or a cache might be built with
+        "x", "x|x", "x|x|x", "Name(a)|Name(b)", "a:b", "a:b:a", "Constant(a)|Constant(b", "p,q", "p", "q,p"]
 
 
 # trees are nested tuples (label, (children...))
@@ -198,6 +200,11 @@ def run(tier, seed, replay=None):
         rp = json.load(open(replay))["replay"]
         if "t1" in rp:
             (small if size(tt(rp["t1"])) + size(tt(rp["t2"])) <= 16 else large).append((tt(rp["t1"]), tt(rp["t2"])))
+    # second small alphabet: labels that are concatenations of one another with a separator
+    sep3 = ["x", "x|x", "x|x|x"]
+    trees_sep = [t for n in (1, 2, 3) for t in all_trees(n, sep3)]
+    small += [(rng.choice(trees_sep), rng.choice(trees_sep)) for _ in range(1500 if tier == "quick" else 15000)]
+    small += [(t, t) for t in trees_sep if size(t) == 3][: 400]
     two = ["Name(x)", "If"]
     trees4 = [t for n in (1, 2, 3, 4) for t in all_trees(n, two)]
     exhaustive_n = 4
@@ -307,7 +314,9 @@ def run(tier, seed, replay=None):
             if not sym:
                 hist["asymmetric_cost_tables"] += 1
             tol = 1e-9 * (x["n1"] + x["n2"] + 1)
-            if abs(x["d12_again"] - x["d12"]) > tol:
+            if x.get("attached_vs_detached"):
+                report(pi, m, "a subtree compared IN PLACE (it has a parent and siblings) differs from a detached copy of itself: %s" % x["attached_vs_detached"])
+            elif abs(x["d12_again"] - x["d12"]) > tol:
                 report(pi, m, "history dependence: d(T1,T2)=%r, and %r when asked again after an inner subtree of T1 was compared on its own (d_sub=%r)"
                        % (x["d12"], x["d12_again"], x["d_sub"]), {"session": ["d(T1,T2)", "d(T2,T1)", "d(T1,T1)", "d(sub(T1),T2')", "d(T1,T2)"]})
             elif abs(x["d_copy"]) > tol and all(abs(ren[(a, a)]) < 1e-12 for a in labels):
